@@ -19,7 +19,7 @@ TRUSTED = [
     "Python str(float) (shortest round-tripping repr) is not modelled: scalar floats carry the text Python printed; float(text) = exact decimal reading",
     "the whole-document round trip parse(print d) = d is NOT proved in Lean (value-, field- and token-level theorems are); it is checked by the oracle",
 ]
-RULE = ("documents from a grammar: 1-4 blocks, 0-12 items, scalars and loops of 0-6 columns x 0-8 rows, ints, floats (integral floats, 1e±k magnitudes, "
+RULE = ("documents from a grammar: 1-4 blocks, 0-12 items, scalars and loops of 0-6 columns x 0-8 rows (3 % of the loops 96-130 columns wide), ints, floats (integral floats, 1e±k magnitudes, "
         "negative, tiny), strings with single and multiple embedded blanks; plus a malformed stream (mutated lines, stray quotes); "
         "distinct = distinct document text; non-trivial = at least one loop with >= 2 columns and one string with blanks or one integral float")
 MANIFEST = {
@@ -69,7 +69,8 @@ def rand_float(rng):
 
 def rand_value(rng, kind):
     if kind == "int":
-        return rng.choice([0, 1, -1, 7, 42, -300, 10**6, rng.randint(-10**9, 10**9)])
+        # also integers that a double cannot hold exactly (they still fit the 20-character field)
+        return rng.choice([0, 1, -1, 7, 42, -300, 10**6, rng.randint(-10**9, 10**9), rng.randint(-10**9, 10**9), 2**53 + 1, -(2**53) - 1, 10**17 + 3, rng.randint(2**53, 10**18) | 1])
     if kind == "float":
         return rand_float(rng)
     return rand_string(rng, blanks=rng.random() < 0.5)
@@ -93,10 +94,14 @@ def rand_doc(rng):
             ncol = rng.randint(1, 6)
             nrow = rng.randint(0, 8)
             prefix = rng.choice(["atom", "symmetry", "geom", "x"])
+            wide = rng.random() < 0.03
+            if wide:
+                # a very wide table (rows of 2000-2700 characters): one physical line per row all the same
+                ncol, nrow = rng.randint(96, 130), rng.randint(1, 3)
             for c in range(ncol):
-                kind = rng.choice(["int", "float", "str"])
+                kind = rng.choice(["int", "float", "str"]) if not wide else rng.choice(["int", "float", "float"])
                 blk[fresh(prefix)] = [rand_value(rng, kind) for _ in range(nrow)]
-        doc[rng.choice(["crystal", "blk", "I", "global", "test-1", "a"]) + str(b)] = blk
+        doc[rng.choice(["crystal", "blk", "I", "global", "test-1", "a", "powder_data_", "data_", "DATA_x", "loop_"]) + str(b)] = blk
     return doc
 
 
